@@ -89,12 +89,17 @@ def phonon_oracle(ctx, c):
             raise PropertyViolation("C17/phonon/weights", "weight %d: %r vs %r" % (j, (w.coord, w.weight), (Q[j].tolist(), W[j])), c)
 
 
-def sub_phonon(ctx):
+def phonon_target(ctx):
     def body(c):
         phonon_oracle(ctx, c)
         ctx.case(c, c["np"] != 3 * c["na"] or c["nq"] > 1, classes=["phonon", "np=3na" if c["np"] == 3 * c["na"] else "np!=3na", "mag=%g" % c["mag"]])
 
-    ctx.run_given(body, phonon_cases(), max_examples=ctx.n(1200, 100000))
+    return body, (phonon_cases(),)
+
+
+def sub_phonon(ctx):
+    body, sts = phonon_target(ctx)
+    ctx.run_given(body, *sts, max_examples=ctx.n(1200, 100000))
 
 
 # ---------------------------------------------------------------------------------------------------------
@@ -176,12 +181,29 @@ def static_oracle(ctx, c):
         raise PropertyViolation("C17/static/lattice", "lattice parameters invented", c)
 
 
-def sub_static(ctx):
+def static_target(ctx):
     def body(c):
         static_oracle(ctx, c)
         ctx.case(c, c["style"] != "c" and c["lattice"], classes=["static", "style-" + c["style"], "lattice" if c["lattice"] else "no-lattice"])
 
-    ctx.run_given(body, static_cases(), max_examples=ctx.n(600, 50000))
+    return body, (static_cases(),)
+
+
+def sub_static(ctx):
+    body, sts = static_target(ctx)
+    ctx.run_given(body, *sts, max_examples=ctx.n(600, 50000))
+
+
+def fuzz_targets(ctx):
+    return {"static": static_target(ctx), "phonon": phonon_target(ctx)}
+
+
+def sub_fuzz(ctx):
+    if ctx.quick or not ctx.primary:
+        return
+    import sys
+    ctx.run_fuzz(sys.modules[__name__], "static", runs=100000, max_time=60)
+    ctx.run_fuzz(sys.modules[__name__], "phonon", runs=100000, max_time=60)
 
 
 # ---------------------------------------------------------------------------------------------------------
@@ -268,15 +290,15 @@ def sub_command(ctx):
 
 
 def subchecks(ctx):
-    return [("phonon", sub_phonon), ("static", sub_static), ("command", sub_command)]
+    return [("phonon", sub_phonon), ("static", sub_static), ("command", sub_command), ("fuzz", sub_fuzz)]
 
 
 def replay(ctx, payload):
     c = payload["case"]
     sub = payload.get("subcheck")
-    if sub == "phonon":
+    if sub == "phonon" or (sub == "fuzz" and "np" in c):
         phonon_oracle(ctx, c)
-    elif sub == "static":
+    elif sub == "static" or (sub == "fuzz" and "style" in c):
         static_oracle(ctx, c)
     else:
         command_oracle(ctx, c)
